@@ -120,6 +120,48 @@ pub fn run_sim(c: &SimCase) -> SimRun {
     SimRun { out, tape, log: lg, queue_pps: qpps, queued }
 }
 
+/// implementation-only probe for C15's ordering clause: the same case with integration delays configured on
+/// both sides (the model does not cover them), every output filter; Err = the returned trace is not ordered by time
+pub fn ordered_with_integration(c: &SimCase) -> Result<(), String> {
+    use maybenot_simulator::integration::{BinDist, Integration};
+    let mk = |a: &str, r: &str, t: &str| -> Option<Integration> {
+        Some(Integration { action_delay: BinDist::new(a).ok()?, reporting_delay: BinDist::new(r).ok()?, trigger_delay: BinDist::new(t).ok()? })
+    };
+    let us = 1.0 + (c.seed % 7) as f64 * 1500.0;
+    let a = format!("{{\"({:.1}, {:.1})\": 1.0}}", us, us * 2.0);
+    let r = format!("{{\"({:.1}, {:.1})\": 1.0}}", us * 3.0, us * 5.0);
+    let t = format!("{{\"({:.1}, {:.1})\": 1.0}}", us / 2.0, us);
+    let (ci, si) = match (mk(&a, &r, &t), mk(&r, &t, &a)) {
+        (Some(x), Some(y)) => (x, y),
+        _ => return Ok(()),
+    };
+    let network = Network::new(Duration::from_nanos(c.delay_ns), c.pps);
+    for (oc, on) in [(false, false), (true, false), (false, true), (true, true)] {
+        let mut args = SimulatorArgs::new(network, c.max_trace, on);
+        args.max_sim_iterations = if c.max_iter == 0 { 20000 } else { c.max_iter };
+        args.continue_after_all_normal_packets_processed = c.cont;
+        args.only_client_events = oc;
+        args.max_padding_frac_client = c.fr[0];
+        args.max_blocking_frac_client = c.fr[1];
+        args.max_padding_frac_server = c.fr[2];
+        args.max_blocking_frac_server = c.fr[3];
+        args.insecure_rng_seed = Some(c.seed);
+        let res = catch_unwind(AssertUnwindSafe(|| {
+            let mut sq = maybenot_simulator::parse_trace_advanced(&trace_string(c), network, Some(&ci), Some(&si));
+            sim_advanced(&c.mc, &c.ms, &mut sq, &args)
+        }));
+        if let Ok(tr) = res {
+            if let Some(i) = (1..tr.len()).find(|i| tr[*i - 1].time > tr[*i].time) {
+                return Err(format!(
+                    "with integration delays (action {}, reporting {}) and only_client_events={} only_network_activity={} the returned trace is not ordered by time: event #{} ({:?}) is {:?} after event #{} ({:?})",
+                    a, r, oc, on, i - 1, tr[i - 1].event, tr[i - 1].time - tr[i].time, i, tr[i].event
+                ));
+            }
+        }
+    }
+    Ok(())
+}
+
 /// the plain entry point sim() (no machines expected: thread RNG)
 pub fn run_sim_plain(c: &SimCase) -> SimRun {
     let network = Network::new(Duration::from_nanos(c.delay_ns), None);
